@@ -164,7 +164,7 @@ func (w *world) dispatchTriple(g, other *reg, sources [2]string) {
 }
 
 func pairPhase(r *ev.Run, rng *rand.Rand) {
-	target := r.Pick(52000, 150000) // concurrent rounds
+	target := r.Pick(40000, 150000) // concurrent rounds
 	rounds, wi := 0, 0
 	wants := []string{"move-peer", "move-peer", "add-peer", "builder", "demote-k", "swap-roles", "remove-peer", "move-leader", "builder"}
 	for rounds < target {
